@@ -88,11 +88,11 @@ class C19(Prop):
     lean_exe = "c19_driver"
     harness = "h_containers.c"
     theorems = ["EaselModel.Props.C19." + t for t in (
-        "keyhash_refines_partial", "keyhash_never_faults_partial", "keyhash_refines_jenkins_partial", "keyhash_ops_partial", "keyhash_upsize", "jenkins_in_range",
+        "keyhash_refines_partial", "keyhash_refines_cstrings", "keyhash_cstr_of_nulfree", "keyhash_never_faults_partial", "keyhash_refines_jenkins_partial", "keyhash_ops_partial", "keyhash_upsize", "jenkins_in_range",
         "keyhash_embedded_nul_counterexample", "spec_store", "spec_lookup", "spec_get",
-        "heap_insert", "heap_extract", "heap_extract_null", "heap_extract_null_unguarded_faults", "heap_sorts", "heap_drain", "heap_validate",
+        "heap_history", "heap_insert", "heap_extract", "heap_extract_null", "heap_extract_null_unguarded_faults", "heap_sorts", "heap_drain", "heap_validate",
         "rb_insert", "rb_history", "rb_wf_iff", "rb_height", "rb_lookup", "rb_sorted_linked", "rb_linked_is_reverse_inorder",
-        "stack_push_pop", "stack_pop_empty", "stack_lifo", "stack_popAll_unfold", "stack_discardTopN", "stack_discardSelected",
+        "stack_history", "stack_history_shuffles", "stack_no_fault", "stack_push_pop", "stack_pop_empty", "stack_lifo", "stack_popAll_unfold", "stack_discardTopN", "stack_discardSelected",
         "stack_shuffle", "stack_convert2String",
         "quicksort_sorts", "quicksort_unguarded_n0_faults")]
     claimed = True
@@ -101,11 +101,12 @@ class C19(Prop):
     thorough_budget_s = 900
     technique = ("Lean 4 proof (refinement of the insertion-ordered map by the chained hash table for any hash function; heap / red-black / "
                  "stack / quicksort invariants by induction) + exact differential correspondence of the executable models with the ASan/UBSan-built C code")
-    level_text = ("Theorems for all histories / inputs: the chained key hash (Store/Lookup/Get/Reuse/Clone, 8-fold key_upsize, arena and index reallocation) "
-                  "refines the insertion-ordered list of distinct keys for ANY hash function into [0,size) and any initial sizes, with no out-of-bounds access (NUL-free keys); "
-                  "heap insert/extract keep heap order and the multiset, draining yields the sorted multiset (min and max); red-black insertion as coded (recolour / 4 rotations) never reaches esl_fatal and keeps "
-                  "BST order, black root, no red-red, equal black height, exactly the inserted keys, and converts to the sorted list; stacks are LIFO, discards filter, shuffle permutes for every generator state; "
-                  "index quicksort (partition as written) terminates without out-of-bounds access and returns a permutation of 0..n-1 ordering the data for any total preorder, every n>=0. "
+    level_text = ("Theorems for all histories / inputs (no bound): (1) the chained key hash (Store/Lookup/Get/Reuse/Clone, 8-fold key_upsize, arena and index reallocation) "
+                  "refines the insertion-ordered list of distinct keys for ANY hash function into [0,size) and any initial sizes, with no out-of-bounds access and no endless chain walk - for every key passed as a C string, "
+                  "and for keys passed by length that contain no NUL; (2) the integer heap refines the sorted-list priority queue for every interleaving of inserts / extractions / peeks (min and max), draining yields the sorted multiset; "
+                  "(3) red-black insertion as coded (recolour / 4 rotations) never reaches esl_fatal and keeps BST order, black root, no red-red, equal black height, exactly the inserted keys, height <= 2 log2(n+1), and converts to the sorted list; "
+                  "(4) stacks refine the LIFO list for every history of push/pop/DiscardTopN/DiscardSelected/Reuse, shuffles permute for every generator state; "
+                  "(5) index quicksort (partition as written, incl. the no-op first swap) terminates without out-of-bounds access and returns a permutation of 0..n-1 ordering the data for any total preorder, every n>=0. "
                   "The hand-written models are tied to the working tree by an exact differential run over operation histories including internal state dumps; abstract-type monitors in Python give a concrete failing history.")
     level_note = ("Trusted: Lean kernel + propext/Classical.choice/Quot.sound; fidelity of the hand models is checked (not proved) by the differential run. "
                   "_partial: keys with an embedded NUL stored by length (known finding, counter-example proved) are excluded (esl_quicksort n=0 and esl_heap_IExtractTop(hp,NULL) on an empty heap were found by this check and are fixed in the tree; regression cases + theorems kept). "
@@ -397,8 +398,10 @@ class C19(Prop):
         quick = ctx.tier == "quick"
         out = list(self.boundary_cases(rng))
 
+        heavy = []
+
         def add(name, ops, sticky=1):
-            out.append({"name": name, "ops": ops, "sticky": sticky})
+            (heavy if len(ops) > 5000 or sum(len(o) for o in ops) > 400000 else out).append({"name": name, "ops": ops, "sticky": sticky})
         nkh = 1500 if quick else 12000
         for c in range(nkh):
             add("kh%d" % c, self.gen_keyhash(rng, rng.choice([10, 40, 150, 400])))
@@ -429,6 +432,9 @@ class C19(Prop):
             add("rb-long", ["rb_new", "rb_ins k=%s" % fmt_ints([rng.randrange(-10**6, 10**6) for _ in range(100000)]), "rb_hash", "rb_list"])
             add("stack-long", ["st_new t=i", "push v=%s" % fmt_ints(self.int_data(rng, 100000)), "shuffle seed=7", "st_dump", "discardsel mode=even", "popall"])
             add("qsort-long", ["qsort mode=coarse data=%s" % fmt_ints(self.int_data(rng, 100000))], sticky=0)
+        # the engine runs cases in batches of 400 per process with a per-batch time limit: spread the long histories
+        for i, h in enumerate(heavy):
+            out.insert(min(len(out), (i + 1) * 397), h)
         return out
 
     # ------------------------------------------------------------------ comparison
